@@ -23,7 +23,7 @@ CallJudge(ln, r) ==
   /\ ln.st = r.st /\ ln.allocs = 0
   /\ Decode(ln.req)                                             \* the client step (checks the `required` contract on NEDATA)
   /\ ln.st = "fin" =>
-       /\ ln.calls = 1 /\ ln.read = r.read /\ ln.slot = r.slot
+       /\ ln.calls = 1 /\ ln.ctx /\ ln.read = r.read /\ ln.slot = r.slot
        /\ Len(events') <= Len(toks.evs)                         \* same callbacks, same arguments, same order:
        /\ events'[Len(events')] = toks.evs[Len(events')]        \* the next token of the one-shot tokenisation
        /\ (IF r.kind \in {"f16", "f32", "f64"} THEN FloatArgOK(r.kind, r.arg, ln.arg)
